@@ -338,6 +338,9 @@ func lineTreeCase(c *core.Ctx, i int) {
 			loadFaults = append(loadFaults, f)
 		}
 	}
+	// run-time faults that are one expression on one line: they can stand as an argument
+	argFaults := []faultKind{{"undefined-identifier-as-argument", "nope", true, 0}, {"division-by-zero-as-argument", "1 / 0", true, 0}, {"unknown-function-as-argument", "5.nofn()", true, 0},
+		{"mistyped-operand-as-argument", "1 + \"a\"", true, 0}, {"unknown-property-as-argument", "{a: 1}.b", true, 0}, {"undefined-identifier-in-argument-on-later-line", "1 +\n nope", true, 1}}
 	insertFault := faultKind{"undefined-insert", "@insert(\"nowhere\", 1)", false, 0}
 	insertBlockFault := faultKind{"undefined-insert-block", "@insert(\"nowhere\")x@end", false, 0}
 	compFault := faultKind{"unknown-component", "@component(\"~ghost\")", false, 0}
@@ -350,6 +353,14 @@ func lineTreeCase(c *core.Ctx, i int) {
 		{"runtime-in-insert-block", "page.tw", "page", runFaults, func(f, pre string) (string, int) {
 			b := "@use(\"~main\")\n" + pre + "@insert(\"title\", \"T\")\n@insert(\"body\")\nstart\n"
 			return b + f + "\nrest\n@end\n", at(b)
+		}},
+		{"runtime-in-insert-argument", "page.tw", "page", argFaults, func(f, pre string) (string, int) {
+			b := "@use(\"~main\")\n" + pre + "@insert(\"title\", \"T\")\n@insert(\"body\", "
+			return b + f + ")\nrest\n", at(b)
+		}},
+		{"runtime-in-component-argument", "page.tw", "page", argFaults, func(f, pre string) (string, int) {
+			b := pre + "lead @component(\"~card\", {t: "
+			return b + f + "})\nrest\n", at(b)
 		}},
 		{"runtime-in-slot-body", "page.tw", "page", runFaults, func(f, pre string) (string, int) {
 			b := pre + "@component(\"~card\", {t: 1})\n@slot\nin slot\n"
